@@ -14,6 +14,11 @@ def main(ids):
     for sid in ids:
         d = os.path.join(HERE, 'seeded', sid)
         patch = os.path.join(d, 'patch.diff')
+        try:
+            import json
+            BASE = json.load(open(os.path.join(d, 'meta.json'))).get('base_commit') or '6daa110'
+        except Exception:
+            BASE = '6daa110'
         # does it already apply to HEAD?
         rc, _ = sh(['git', 'apply', '--check', patch], cwd='/repo')
         if rc == 0:
